@@ -92,7 +92,7 @@ func firstDiff(a, b []string) string {
 
 func TestC14(t *testing.T) {
 	c := evid.New("C14")
-	c.Rule = "sequential histories of 3-10 real writes of all kinds with previews (dry run) of all kinds inserted at generated positions (succeeding and failing, with and without idempotency key), process restarts at generated positions. Each case runs H1 (as generated), H0 (previews removed) and H2_k (preview k made real). Oracle: persisted log, responses of real writes and publications of H1 equal those of H0 byte for byte; the preview's answer in H1 equals its real twin's answer in H2_k. A second family (25%) lets previews race real writes (generated schedules) and checks the no-effect clauses as invariants of the history: transaction ids dense in log order, every entry produced by a real request, nothing published for a preview. Non-trivial = a successful preview followed by at least one real transaction (sequential family) or a preview overlapping a real write (concurrent family); distinct by operations (and gate trace)."
+	c.Rule = "sequential histories of 3-10 real writes of all kinds with previews (dry run) of all kinds inserted at generated positions (succeeding and failing, with and without idempotency key), process restarts at generated positions. Each case runs H1 (as generated), H0 (previews removed) and H2_k (preview k made real). Oracle: persisted log, responses of real writes and publications of H1 equal those of H0 byte for byte; the preview's answer in H1 equals its real twin's answer in H2_k. A second family (50%) lets previews race real writes (generated schedules) and checks the no-effect clauses as invariants of the history: transaction ids dense in log order, every entry produced by a real request, nothing published for a preview, and the guarantees of the real writes around it intact (unique references, idempotency keys, no overdraft); a quarter of its rounds are bursts of creates sharing one reference, a third of them previews. Non-trivial = a successful preview followed by at least one real transaction (sequential family) or a preview overlapping a real write (concurrent family); distinct by operations (and gate trace)."
 	c.Assumptions = []string{engineAssumption, "the bubble's fake clock stands still, so timestamps (and therefore hashes) are equal across the runs; cases where it moved are discarded and counted"}
 	cfg := enginesim.DefaultConfig()
 	cfg.Sequential = true
@@ -105,8 +105,9 @@ func TestC14(t *testing.T) {
 	ccfg.DryRunPct = 40
 	ccfg.IKPool = []string{"", "", "", "k1"}
 	ccfg.SameIKIdentical = true
+	ccfg.RefBurstPct = 35
 	runProp(t, c, func(rt *rapid.T) {
-		if rapid.IntRange(0, 3).Draw(rt, "concurrentFamily") == 0 {
+		if rapid.IntRange(0, 1).Draw(rt, "concurrentFamily") == 0 {
 			// previews racing real writes: byte equality with a preview-free twin is not defined under
 			// concurrency, so the "no effect" clauses are checked as invariants of the history
 			plan := enginesim.GenPlan(rt, ccfg)
@@ -128,8 +129,9 @@ func TestC14(t *testing.T) {
 			}
 			c.Case("conc:"+enginesim.TraceKey(r), overl, []string{"family:concurrent", fmt.Sprintf("previews:%d", min(nPrev, 3))}, sampleOf(r))
 			// (a) no consumed id, no gap: ids dense in log order; (b) no entry produced by a preview: every entry
-			// has a real producer (CheckAck ignores previews as producers); (c) nothing published by a preview
-			for _, v := range []*enginesim.Verdict{enginesim.CheckChain(r), enginesim.CheckAck(r), enginesim.CheckEvents(r)} {
+			// has a real producer (CheckAck ignores previews as producers); (c) nothing published by a preview; (d) a preview
+			// does not weaken what protects the real writes around it: references stay unique, keys take effect once, no overdraft
+			for _, v := range []*enginesim.Verdict{enginesim.CheckChain(r), enginesim.CheckAck(r), enginesim.CheckEvents(r), enginesim.CheckReferences(r), enginesim.CheckNoOverdraft(r), enginesim.CheckIdempotency(r, true)} {
 				if v == nil {
 					continue
 				}
